@@ -132,6 +132,12 @@ func (cfg *Config) paramExp(pe *syntax.ParamExp) (string, error) {
 			callVarInd = false
 			elems = cfg.sliceElems(pe, vr.List, vr.Indexes, name == "@" || name == "*")
 			str = join(elems)
+		case Associative:
+			// All the values; ${#assoc[@]} counts them.
+			indexAllElements = true
+			callVarInd = false
+			elems = slices.Sorted(maps.Values(vr.Map))
+			str = join(elems)
 		}
 	}
 	if callVarInd {
